@@ -172,6 +172,15 @@ def _strip_doc(body):
     return body
 
 
+def arrays_of(v):
+    """the heap array references inside a symbolic value"""
+    if isinstance(v, SArr):
+        return [v]
+    if isinstance(v, STuple):
+        return [a for it in v.items for a in arrays_of(it)]
+    return []
+
+
 def assigned_names(stmts):
     """Names syntactically assigned in stmts, and names of arrays stored into."""
     names, stores = set(), set()
@@ -845,7 +854,15 @@ class FunctionVerifier:
             return x
 
         c = self.to_bool(self.compare(sub, op, elem(a), elem(b), node, prog))
-        return self.new_loc(st, "b1", [shp[0]], {"v": z3.Lambda([k], c)}, name="cmp")
+        # a named array with a pointwise definition (a lambda term inside later quantified formulas makes z3 give up)
+        nm = self.fresh("cmp", z3.ArraySort(I, B))
+        st.assume(z3.ForAll([k], z3.Select(nm, k) == z3.substitute(c, *[]), patterns=[z3.Select(nm, k)]))
+        r_ = self.new_loc(st, "b1", [shp[0]], {"v": nm}, name="cmp")
+        if prog:
+            # ghost name of the k-th elementwise comparison result of the function: cmp_res<k>
+            kk = sum(1 for x in st.env if x.startswith("cmp_res"))
+            st.env["cmp_res%d" % kk] = r_
+        return r_
 
     def ev_IfExp(self, node, st, prog):
         c = self.to_bool(self.ev(node.test, st, prog))
@@ -1391,6 +1408,10 @@ class FunctionVerifier:
             if n not in st.env:
                 continue
             v = st.env[n]
+            if any(a_.loc not in st.heap for a_ in arrays_of(v)):
+                # bound (in the dry run of the body) to an array allocated inside the loop: no value survives the havoc
+                del st.env[n]
+                continue
             st.env[n] = self.havoc_value(st, n, v, promote.get(n))
         for n in sorted(stores):
             v = st.env.get(n)
@@ -1572,7 +1593,7 @@ class FunctionVerifier:
         end = z3.If(hi >= lo, hi, lo)
         names, stores = assigned_names(node.body)
         names.add(tv)
-        names |= self.ghost_assigned(ls)
+        names |= self.ghost_assigned(ls, node)
         stores |= self.callee_modified_names(node.body, st)
         st.labels = dict(st.labels)
         st.labels["loop%d" % k] = st.snapshot()
@@ -1645,8 +1666,31 @@ class FunctionVerifier:
         out.extend((c, FALL) for c in cur)
         return out
 
-    def ghost_assigned(self, ls):
-        n, _ = assigned_names(ls.head + ls.tail)
+    def ghost_assigned(self, ls, node=None):
+        """ghost variables a loop iteration may assign: in this loop's head/tail blocks, in the ghost blocks of every
+        loop nested in the body, and in every statement / call anchor attached inside the body (call anchors are
+        matched by callee name and call-site ordinal)"""
+        blocks = list(ls.head) + list(ls.tail)
+        if node is not None:
+            called = set()
+            for sub in ast.walk(node):
+                if sub is node:
+                    continue
+                if isinstance(sub, (ast.For, ast.While)) and id(sub) in self.loop_ids:
+                    ls2 = self.cd.loops.get(self.loop_ids[id(sub)])
+                    if ls2 is not None:
+                        blocks += list(ls2.head) + list(ls2.tail) + list(ls2.after)
+                key = self.stmt_keys.get(id(sub))
+                if key is not None:
+                    for when in ("before", "after"):
+                        blocks += list(self.cd.stmt_anchors.get((key[0], key[1], when), []))
+                if isinstance(sub, ast.Call):
+                    f_ = sub.func
+                    called.add((f_.id if isinstance(f_, ast.Name) else (f_.attr if isinstance(f_, ast.Attribute) else None), self.call_sites.get(id(sub), 0)))
+            for (callee, k_, when), blk in self.cd.call_anchors.items():
+                if (callee, k_) in called:
+                    blocks += list(blk)
+        n, _ = assigned_names(blocks)
         return n
 
     def callee_modified_names(self, stmts, st):
@@ -1665,7 +1709,7 @@ class FunctionVerifier:
         ls = self.cd.loops.get(k) or C.LoopSpec()
         anchor = "loop%d" % k
         names, stores = assigned_names(node.body)
-        names |= self.ghost_assigned(ls)
+        names |= self.ghost_assigned(ls, node)
         stores |= self.callee_modified_names(node.body, st)
         st.labels = dict(st.labels)
         st.labels["loop%d" % k] = st.snapshot()
